@@ -369,9 +369,16 @@ void getOffsetAndCount(const Tag &tag, const DataArray &array, NDSize &offset, N
         position.pop_back();
         extent.pop_back();
     }
+    // dimensions the tag does not specify run from the first to the last element of the data
+    size_t specified = position.size();
+    vector<double> end_position(dim_count);
+    for (size_t i = 0; i < specified; ++i) {
+        end_position[i] = position[i] + extent[i];
+    }
     while (position.size() < dim_count) {
+        end_position[position.size()] = get<1>(max_extents[position.size()]);
         position.push_back(get<0>(max_extents[position.size()]));
-        extent.push_back(get<1>(max_extents[extent.size()]));
+        extent.push_back(end_position[extent.size()] - position.back());
     }
 
     if (units.size() == 0) {
@@ -388,7 +395,7 @@ void getOffsetAndCount(const Tag &tag, const DataArray &array, NDSize &offset, N
     NDSize temp_count(position.size(), 1);
     for (size_t i = 0; i < position.size(); ++i) {
         vector<optional<pair<ndsize_t, ndsize_t>>> ranges = positionToIndex({position[i]},
-                                                                             {position[i] + extent[i]},
+                                                                             {end_position[i]},
                                                                              {units[i]},
                                                                              match,
                                                                              dimensions[i]);
